@@ -27,6 +27,17 @@ def pairwiseDistinct : List SplitSet → Bool
 /-- a tree the property talks about: binary, unique tip names, at least four tips -/
 def inScope (t : T) : Bool := t.binary && t.uniqueTips && 4 ≤ t.tipNames.length
 
+/-- Binary for ANY root position: the root has two or three children (`T.binary`), or the root is
+    itself a tip — one child, which has two children — and everything below is binary
+    (`(((a,b),(c,d)))e;`). -/
+def tipRooted (t : T) : Bool :=
+  t.kids.length == 1 && binaryL t.kids && t.kids.all (fun et => et.2.kids.length == 2)
+
+def binaryAnyRoot (t : T) : Bool := t.binary || tipRooted t
+
+/-- the property's trees, the tip-rooted ones included -/
+def inScope1 (t : T) : Bool := binaryAnyRoot t && t.uniqueTips && 4 ≤ t.tipNames.length
+
 /-- number of inner branches of the (unrooted) tree = number of non-trivial splits -/
 def innerBranches (t : T) : Nat := t.usplitSet.length
 
@@ -99,6 +110,19 @@ def neighbourOK (t t' : T) : Bool :=
 def neighbourhoodOK (t : T) (ns : List T) : Bool :=
   ns.length == 2 * innerBranches t && ns.all (neighbourOK t) &&
   pairwiseDistinct (ns.map (·.usplitSet))
+
+/-- the same with `binaryAnyRoot` (tip-rooted trees included) -/
+def neighbourOK3 (t t' : T) : Bool :=
+  binaryAnyRoot t' && t'.uniqueTips && sameTips t t' && t'.rooted == t.rooted &&
+  oneSplitApart t.usplitSet t'.usplitSet && othersKeepData t t'
+
+def viewOf1 (t : T) : View := { viewOf t with binary := binaryAnyRoot t }
+
+theorem neighbourOK3V_eq (t t' : T) : neighbourOK2V (viewOf1 t) (viewOf1 t') = neighbourOK3 t t' := rfl
+
+/-- on the trees of the old scope nothing changes -/
+theorem viewOf1_eq (t : T) (h : t.binary = true) : viewOf1 t = viewOf t := by
+  simp [viewOf1, viewOf, binaryAnyRoot, h]
 
 /-- the driver evaluates the oracle on views; it is the same predicate -/
 theorem neighbourOK2V_eq (t t' : T) : neighbourOK2V (viewOf t) (viewOf t') = neighbourOK2 t t' := rfl
